@@ -446,7 +446,7 @@ def assemble(unit_file, canary=False, mutate_spec=None):
                 i += 1
             spec = "\n".join(spec_lines)
             passes = [False]
-            if canary and "nobody" not in flags and it["body"] is not None and "@" not in key:
+            if canary and "nobody" not in flags and "external" not in flags and it["body"] is not None and ("@" not in key or "inherent" in flags):
                 # (methods of trait impls cannot be copied under another name: exempt; their preconditions are the trait's)
                 passes = [False, True]  # the canary is a renamed COPY so that no caller ever assumes its `ensures false`
             for is_copy in passes:
@@ -454,11 +454,26 @@ def assemble(unit_file, canary=False, mutate_spec=None):
                 # signature
                 sig_start = it["start"]
                 sig_text = src[sig_start:it["paren_end"]].decode().lstrip()
+                assoc = None
+                if "selfassoc" in flags:
+                    # resolve `Self::Output` with the impl block's own `type Output = X;` (documented mechanical substitution)
+                    implkey_ = key.rsplit("::", 1)[0]
+                    for it2 in ex[relfile]["items"]:
+                        if it2["kind"] == "impl_type" and it2["key"] == implkey_ + "::Output":
+                            t_ = src[it2["span"][0]:it2["span"][1]].decode()
+                            assoc = t_.split("=", 1)[1].strip().rstrip(";").strip()
+                    if assoc is None:
+                        raise Infra("lost anchor: no `type Output` in impl %s" % implkey_)
+                    sig_text = sig_text.replace("Self::Output", assoc)
+                if "external" in flags:
+                    asm.emit("    #[verifier::external_body]\n", {"kind": "gen"})
                 if is_copy:
                     sig_text = re.sub(r"\bfn\s+" + re.escape(it["name"]) + r"\b", "fn " + it["name"] + "__canary", sig_text, count=1)
                 asm.emit("    " + sig_text, {"kind": "repo-sig", "file": relfile, "line0": it["span"][2], "fn": fninfo})
                 if it["ret"] is not None:
                     ty = src[it["ret"]["ty"][0]:it["ret"]["ty"][1]].decode()
+                    if assoc is not None:
+                        ty = ty.replace("Self::Output", assoc)
                     if retname == "-":
                         asm.emit(" -> %s" % ty, {"kind": "gen"})
                     else:
@@ -488,7 +503,12 @@ def assemble(unit_file, canary=False, mutate_spec=None):
                         asm.clauses.append({"name": nm, "unit": asm.unit, "fn": key, "file": relfile, "section": section, "tags": tags,
                                             "start": base + cs, "end": base + ce, "text": ctext, "canary": "/*canary*/" in ctext})
                 # body
-                if "nobody" in flags or it["body"] is None:
+                if "external" in flags:
+                    asm.emit("    { unimplemented!() }\n", {"kind": "gen"})
+                    if not is_copy:
+                        asm.functions.append({"unit": asm.unit, "key": key, "kind": "external-fn", "file": relfile, "lines": [it["span"][2], it["span"][3]],
+                                              "sha256": hashlib.sha256(src[sig_start:it["paren_end"]]).hexdigest()[:16]})
+                elif "nobody" in flags or it["body"] is None:
                     asm.emit(";\n", None)
                 else:
                     lp = {}
@@ -517,7 +537,7 @@ def assemble(unit_file, canary=False, mutate_spec=None):
                                           "lines": [it["span"][2], it["span"][3]],
                                           "sha256": hashlib.sha256(src[sig_start:it["span"][1]]).hexdigest()[:16],
                                           "body_tags": body_tags, "panic_sites": nsites, "loops": len(it["loops"]), "closures": len(it["closures"]),
-                                          "is_unsafe": it["is_unsafe"]})
+                                          "is_unsafe": it["is_unsafe"], "inherent": "inherent" in flags})
             implkey = key.rsplit("::", 1)[0] if "::" in key else ""
             covered.setdefault((relfile, implkey), set()).add(it["name"])
         else:
@@ -694,10 +714,10 @@ def verify_unit(unit_file, workdir, want_canary=True):
         open(cpath, "w").write(casm.text())
         cres = run_verus(cpath)
         cfailed, cinfra = classify(casm, cres)
-        fns_with_body = [f["key"] for f in casm.functions if f["kind"] == "fn" and "@" not in f["key"]]
+        fns_with_body = [f["key"] for f in casm.functions if f["kind"] == "fn" and ("@" not in f["key"] or f.get("inherent"))]
         hit = set(e["fn"] for e in cfailed if e.get("canary"))
         missing = [f for f in fns_with_body if f not in hit]
-        out["canary"] = {"exempt_trait_impl_methods": [f["key"] for f in casm.functions if f["kind"] == "fn" and "@" in f["key"]], "functions": len(fns_with_body), "failed_as_expected": len(hit), "missing": missing, "infra": cinfra, "wall_s": cres["wall_s"]}
+        out["canary"] = {"exempt_trait_impl_methods": [f["key"] for f in casm.functions if f["kind"] == "fn" and "@" in f["key"] and not f.get("inherent")], "functions": len(fns_with_body), "failed_as_expected": len(hit), "missing": missing, "infra": cinfra, "wall_s": cres["wall_s"]}
         if missing:
             out["infra"].append("canary `ensures false` verified for %s: precondition vacuous or function diverges" % missing)
         if cinfra:
